@@ -375,6 +375,8 @@ pub const FONT_NAMES: [&str; 3] = ["fontA", "fontB", "fontC"];
 pub fn sim_built_ins() -> HashMap<&'static str, command::BuiltIn<SimState>> {
     let mut m = texlang_stdlib::built_in_commands::<SimState>();
     m.insert("dump", job::get_dump());
+    // \sleep calls the real thread::sleep, which is not behind a seam: never installed.
+    m.remove("sleep");
     for (i, name) in FONT_NAMES.iter().enumerate() {
         m.insert(name, command::BuiltIn::new_font(types::Font(i as u16 + 1)));
     }
